@@ -463,6 +463,18 @@ def check_case(case, ctx):
                 if case.get("more"):
                     want.append({"path": ("dns-beacon",), "kw": ["dns_idle"], "args": [v[1]], "vals": [v[1].encode()], "rule": "x"})
                 text = None
+            elif which == "emptydt-termination-later":
+                # attached empty, then only termination statements are added through the handle
+                out = c2p.DataTransformBlock()
+                built.set_config_block("http_get", c2p.HttpGetBlock(uri=v[0], server=c2p.HttpOptionsBlock(header=[(v[1], v[2])], output=out)))
+                if case.get("more"):
+                    built.as_dict()
+                out.add_termination("header", v[1])
+                p_ = ("http-get", "server", "output")
+                want = [{"path": ("http-get",), "kw": ["uri"], "args": [v[0]], "vals": [v[0].encode()], "rule": "x"},
+                        {"path": ("http-get", "server"), "kw": ["header"], "args": [v[1], v[2]], "vals": [v[1].encode(), v[2].encode()], "rule": "x"},
+                        {"path": p_, "kw": ["header"], "args": [v[1]], "vals": [v[1].encode()], "rule": "termination_statement"}]
+                text = f'http-get {{ set uri "{v[0]}"; server {{ header "{v[1]}" "{v[2]}"; output {{ header "{v[1]}"; }} }} }}'
             elif which == "emptydt-filled-later":
                 # a transform block attached while still empty and filled through the handle afterwards, with a read in between
                 out = c2p.DataTransformBlock()
@@ -597,8 +609,8 @@ def run_shard(shard, ctx):
             if i < 4:
                 vals[i] = [b"\\'", b"'\\", b"\\\"", b"\\'\\'"][i]
             check_case({"op": "builder_bytes", "vals": vals}, ctx)
-        for i in range(16):
-            check_case({"op": "builder_edge", "which": ["dnscomment", "emptydt-none", "emptydt-list", "emptydt-filled-later"][i % 4], "more": (i // 4) % 2 == 0,
+        for i in range(20):
+            check_case({"op": "builder_edge", "which": ["dnscomment", "emptydt-none", "emptydt-list", "emptydt-filled-later", "emptydt-termination-later"][i % 5], "more": (i // 5) % 2 == 0,
                         "vals": [_val(rng) or "x" for _ in range(3)]}, ctx)
         for _ in range(12):
             check_case({"op": "kwargs", "vals": [_val(rng) or "x" for _ in range(13)]}, ctx)
